@@ -10,6 +10,7 @@ pub mod c07;
 pub mod c08;
 pub mod c09;
 pub mod c11;
+pub mod c12;
 pub mod c14;
 pub mod c15;
 pub mod c20;
@@ -35,6 +36,7 @@ pub fn dispatch(engine: &str, cfg: &Cfg) -> i32 {
         "c08" => c08::run(cfg),
         "c09" => c09::run(cfg),
         "c11" => c11::run(cfg),
+        "c12" => c12::run(cfg),
         "c14" => c14::run(cfg),
         "c15" => c15::run(cfg),
         "c20" => c20::run(cfg),
